@@ -29,67 +29,119 @@ fn tmpl__transfer_tcp<Ctx, Codec, NC: FnOnce(&ServerConfig<SslConfig>) -> anyhow
         forall|ctx: Ctx, addr: &Address| new_context.ensures((&config,), Ok(ctx)) ==> #[trigger] new_codec.requires((addr, ctx)),
 { unimplemented!() }
 
-// ---- client/template.rs try_transfer_tcp: which client-server transport a configuration's ssl / ws / quic sections select ----
-/// tokio_util::codec::{Encoder, Decoder}: only the bounds of try_transfer_tcp name them here
+// ---- client/template.rs try_transfer_tcp and new_{plain,tls,ws,wss}_outbound: which client-server transport a configuration's ssl / ws / quic
+// sections select, and where it connects ----
+/// tokio_util::codec::{Encoder, Decoder} (TRUSTED): `framed` wraps the stream with exactly this codec
 pub trait Encoder<I> { type Error; }
-pub trait Decoder { type Item; type Error; }
-#[verifier::external_body]
-pub struct TcpStream { _s: u8 }
+pub trait Decoder: Sized {
+    type Item; type Error;
+    #[verifier::external_body]
+    fn framed<S>(self, s: S) -> (r: Framed<S, Self>)
+        ensures r.codec() == self, r.io() == s
+    { unimplemented!() }
+}
 pub struct BytesCodec;
 #[verifier::external_body]
 #[verifier::accept_recursive_types(S)]
 #[verifier::accept_recursive_types(C)]
 pub struct Framed<S, C> { _s: core::marker::PhantomData<(S, C)> }
 impl<S, C> Framed<S, C> {
+    pub uninterp spec fn codec(&self) -> C;
+    pub uninterp spec fn io(&self) -> S;
     #[verifier::external_body]
-    fn new(s: S, c: C) -> (r: Self) { unimplemented!() }
+    fn new(s: S, c: C) -> (r: Self) ensures r.codec() == c, r.io() == s { unimplemented!() }
 }
 #[verifier::external_body]
 pub struct relay__Result { _r: u8 }
 #[verifier::external_body]
-pub struct OutStream { _r: u8 }
-pub enum Transport { Plain, Tls, Ws, Wss, Quic }
-/// one outbound connection attempt of the client: which transport, to which host and port, with which ssl / ws section
-pub struct Dial { pub kind: Transport, pub host: Seq<char>, pub port: u16, pub ssl: Option<SslConfig>, pub ws: Option<WebSocketConfig> }
+pub struct QuicStream { _r: u8 }
+/// one outbound connection attempt of the client, as the steps taken for it: TCP connect to (host, port); TLS handshake for (host, port) under an
+/// ssl section; WebSocket handshake for (host, port) under a ws section; or a QUIC connection to (host, port) under a quic section
+pub struct Dial {
+    pub tcp: Option<(Seq<char>, u16)>,
+    pub tls: Option<(Seq<char>, u16, SslConfig)>,
+    pub ws: Option<(Seq<char>, u16, WebSocketConfig)>,
+    pub quic: Option<(Seq<char>, u16, SslConfig)>,
+}
 pub struct TransportLog { pub dials: Seq<Dial>, pub relays: Seq<nat> }
-/// README "Transport": quic section -> QUIC; otherwise ssl+ws -> WebSocket over TLS, ssl -> TLS, ws -> WebSocket, neither -> plain TCP
-pub closed spec fn transport_of(c: &ServerConfig<SslConfig>) -> Transport {
-    if c.quic is Some { Transport::Quic }
-    else if c.ssl is Some { if c.ws is Some { Transport::Wss } else { Transport::Tls } }
-    else if c.ws is Some { Transport::Ws } else { Transport::Plain }
-}
+/// README "Transport": quic section -> QUIC; otherwise TCP to the server, then TLS iff an ssl section, then WebSocket iff a ws section
 pub closed spec fn dial_of(c: &ServerConfig<SslConfig>) -> Dial {
-    Dial { kind: transport_of(c), host: c.host@, port: c.port,
-        ssl: if c.quic is Some { c.quic } else { c.ssl },
-        ws: if c.quic is Some { None } else { c.ws } }
+    if c.quic is Some { Dial { tcp: None, tls: None, ws: None, quic: Some((c.host@, c.port, c.quic->0)) } }
+    else { Dial { tcp: Some((c.host@, c.port)),
+        tls: if c.ssl is Some { Some((c.host@, c.port, c.ssl->0)) } else { None },
+        ws: if c.ws is Some { Some((c.host@, c.port, c.ws->0)) } else { None },
+        quic: None } }
 }
-/// client/template.rs new_*_outbound (connect, TLS / WebSocket / QUIC handshake): NOT verified; each records the attempt, successful or not
+/// every step taken so far is a step of `t`
+pub open spec fn partial(d: Dial, t: Dial) -> bool {
+    (d.tcp is None || d.tcp == t.tcp) && (d.tls is None || d.tls == t.tls) && (d.ws is None || d.ws == t.ws) && (d.quic is None || d.quic == t.quic)
+}
+/// between two log states at most one attempt was made, all of its steps are steps of `t`, and success means all of `t` was done
+pub open spec fn one_dial(old_d: Seq<Dial>, new_d: Seq<Dial>, t: Dial, ok: bool) -> bool {
+    &&& ok ==> new_d =~= old_d.push(t)
+    &&& new_d == old_d || (new_d.len() == old_d.len() + 1 && new_d.drop_last() =~= old_d && partial(new_d.last(), t))
+}
+/// tokio::net::TcpStream (TRUSTED): connect records the attempt
 #[verifier::external_body]
-fn new_plain_outbound<C>(host: &str, port: u16, codec: C, Tracked(vlog): Tracked<&mut TransportLog>) -> (r: Result<Framed<OutStream, C>>)
-    ensures final(vlog).relays == old(vlog).relays,
-        final(vlog).dials == old(vlog).dials.push(Dial { kind: Transport::Plain, host: host@, port, ssl: None, ws: None })
-{ unimplemented!() }
+pub struct TcpStream { _s: u8 }
+impl TcpStream {
+    #[verifier::external_body]
+    fn connect(a: (&str, u16), Tracked(vlog): Tracked<&mut TransportLog>) -> (r: Result<TcpStream>)
+        ensures final(vlog).relays == old(vlog).relays,
+            final(vlog).dials == old(vlog).dials.push(Dial { tcp: Some((a.0@, a.1)), tls: None, ws: None, quic: None })
+    { unimplemented!() }
+}
 #[verifier::external_body]
-fn new_quic_outbound<C>(host: &str, port: u16, codec: C, config: &SslConfig, Tracked(vlog): Tracked<&mut TransportLog>) -> (r: Result<Framed<OutStream, C>>)
-    ensures final(vlog).relays == old(vlog).relays,
-        final(vlog).dials == old(vlog).dials.push(Dial { kind: Transport::Quic, host: host@, port, ssl: Some(*config), ws: None })
-{ unimplemented!() }
+#[verifier::accept_recursive_types(S)]
+pub struct TlsStream<S> { _s: core::marker::PhantomData<S> }
+/// client/template.rs rustls_stream (TCP connect, rustls client configuration, TLS handshake with the configured or the host's server name): NOT verified
 #[verifier::external_body]
-fn new_tls_outbound<C>(host: &str, port: u16, codec: C, ssl_config: &SslConfig, Tracked(vlog): Tracked<&mut TransportLog>) -> (r: Result<Framed<OutStream, C>>)
+fn rustls_stream(host: &str, port: u16, ssl_config: &SslConfig, Tracked(vlog): Tracked<&mut TransportLog>) -> (r: Result<TlsStream<TcpStream>>)
     ensures final(vlog).relays == old(vlog).relays,
-        final(vlog).dials == old(vlog).dials.push(Dial { kind: Transport::Tls, host: host@, port, ssl: Some(*ssl_config), ws: None })
+        one_dial(old(vlog).dials, final(vlog).dials, Dial { tcp: Some((host@, port)), tls: Some((host@, port, *ssl_config)), ws: None, quic: None }, r is Ok)
 { unimplemented!() }
+/// tokio_websockets::ClientBuilder as built by client/template.rs new_ws_builder (headers, ws:// URI): NOT verified; it remembers what it was built for
 #[verifier::external_body]
-fn new_ws_outbound<C>(host: &str, port: u16, codec: C, ws_config: &WebSocketConfig, Tracked(vlog): Tracked<&mut TransportLog>) -> (r: Result<Framed<OutStream, C>>)
-    ensures final(vlog).relays == old(vlog).relays,
-        final(vlog).dials == old(vlog).dials.push(Dial { kind: Transport::Ws, host: host@, port, ssl: None, ws: Some(*ws_config) })
-{ unimplemented!() }
+pub struct ClientBuilder { _s: u8 }
 #[verifier::external_body]
-fn new_wss_outbound<C>(host: &str, port: u16, codec: C, ssl_config: &SslConfig, ws_config: &WebSocketConfig, Tracked(vlog): Tracked<&mut TransportLog>) -> (r: Result<Framed<OutStream, C>>)
-    ensures final(vlog).relays == old(vlog).relays,
-        final(vlog).dials == old(vlog).dials.push(Dial { kind: Transport::Wss, host: host@, port, ssl: Some(*ssl_config), ws: Some(*ws_config) })
+#[verifier::accept_recursive_types(S)]
+pub struct WebSocketStream<S> { _s: core::marker::PhantomData<S> }
+pub struct WsResponse { _r: u8 }
+pub struct WsError { _r: u8 }
+impl ClientBuilder {
+    pub uninterp spec fn target(&self) -> (Seq<char>, u16, WebSocketConfig);
+    /// the WebSocket handshake is a step of the attempt under way
+    #[verifier::external_body]
+    fn connect_on<S>(self, s: S, Tracked(vlog): Tracked<&mut TransportLog>) -> (r: Result<(WebSocketStream<S>, WsResponse), WsError>)
+        requires old(vlog).dials.len() > 0
+        ensures final(vlog).relays == old(vlog).relays,
+            final(vlog).dials == old(vlog).dials.drop_last().push(Dial { ws: Some(self.target()), ..old(vlog).dials.last() })
+    { unimplemented!() }
+}
+#[verifier::external_body]
+fn new_ws_builder(host: &str, port: u16, ws_config: &WebSocketConfig) -> (r: Result<ClientBuilder>)
+    ensures r matches Ok(b) ==> b.target() == (host@, port, *ws_config)
 { unimplemented!() }
-/// client/template.rs relay_tcp (split / forward / try_join): NOT verified; records over which dial (by ordinal) the relay ran
+/// codec.rs WebSocketFramed::new: under contract in u_ws; here it keeps the codec it is given
+#[verifier::external_body]
+#[verifier::accept_recursive_types(S)]
+#[verifier::accept_recursive_types(C)]
+#[verifier::accept_recursive_types(E)]
+#[verifier::accept_recursive_types(D)]
+pub struct WebSocketFramed<S, C, E, D> { _s: core::marker::PhantomData<(S, C, E, D)> }
+impl<S, C, E, D> WebSocketFramed<S, C, E, D> {
+    pub uninterp spec fn codec(&self) -> C;
+    #[verifier::external_body]
+    fn new(s: WebSocketStream<S>, c: C) -> (r: Self) ensures r.codec() == c { unimplemented!() }
+}
+/// client/template.rs new_quic_outbound (rustls / quinn set-up, QUIC connect, open_bi): NOT verified; records the attempt
+#[verifier::external_body]
+fn new_quic_outbound<C>(host: &str, port: u16, codec: C, config: &SslConfig, Tracked(vlog): Tracked<&mut TransportLog>) -> (r: Result<Framed<QuicStream, C>>)
+    ensures final(vlog).relays == old(vlog).relays,
+        one_dial(old(vlog).dials, final(vlog).dials, Dial { tcp: None, tls: None, ws: None, quic: Some((host@, port, *config)) }, r is Ok),
+        r matches Ok(f) ==> f.codec() == codec,
+{ unimplemented!() }
+/// client/template.rs relay_tcp (split / forward / try_join): NOT verified; records after how many attempts the relay ran
 #[verifier::external_body]
 fn relay_tcp<I, O>(local_client: I, client_server: O, Tracked(vlog): Tracked<&mut TransportLog>) -> (r: relay__Result)
     ensures final(vlog).dials == old(vlog).dials,
@@ -181,11 +233,11 @@ where
         new_codec.requires((peer_addr, context)),
     ensures
         //#C16 C01
-        // exactly one outbound attempt at most, over the transport the configuration's sections name, to the configured server
-        final(vlog).dials == old(vlog).dials || final(vlog).dials == old(vlog).dials.push(dial_of(config)),
-        // a relay ran only over that attempt, and Ok means it ran
-        r is Ok ==> final(vlog).dials == old(vlog).dials.push(dial_of(config))
-            && final(vlog).relays == old(vlog).relays.push(final(vlog).dials.len()),
+        // at most one outbound attempt, every step of it a step of the transport the configuration's sections name, to the configured server;
+        // Ok means the whole of it was done
+        one_dial(old(vlog).dials, final(vlog).dials, dial_of(config), r is Ok),
+        // a relay ran only after that attempt succeeded, and Ok means it ran
+        r is Ok ==> final(vlog).relays == old(vlog).relays.push(final(vlog).dials.len()),
         r is Err ==> final(vlog).relays == old(vlog).relays,
 {
     let local_client = Framed::new(inbound, BytesCodec);
@@ -212,4 +264,69 @@ where
             relay_tcp(local_client, client_server, Tracked(vlog))
         }
     })
+}
+
+//@@ octo-squirrel-client/src/client/template.rs:294-301  fn new_plain_outbound  sha=09673406cd095822
+fn new_plain_outbound<C, E, D>(host: &str, port: u16, codec: C, Tracked(vlog): Tracked<&mut TransportLog>) -> (r: Result<Framed<TcpStream, C>, anyhow::Error>)
+where
+    C: Encoder<E, Error = anyhow::Error> + Decoder<Item = D, Error = anyhow::Error>,
+    ensures
+        //#C16 C01
+        final(vlog).relays == old(vlog).relays,
+        one_dial(old(vlog).dials, final(vlog).dials, Dial { tcp: Some((host@, port)), tls: None, ws: None, quic: None }, r is Ok),
+        r matches Ok(f) ==> f.codec() == codec,
+{
+    let outbound = TcpStream::connect((host, port), Tracked(vlog))?;
+    let client_server = codec.framed(outbound);
+    Ok(client_server)
+}
+
+//@@ octo-squirrel-client/src/client/template.rs:318-324  fn new_tls_outbound  sha=70960c9746a9bdb7
+fn new_tls_outbound<C, E, D>(host: &str, port: u16, codec: C, ssl_config: &SslConfig, Tracked(vlog): Tracked<&mut TransportLog>) -> (r: Result<Framed<TlsStream<TcpStream>, C>>)
+where
+    C: Encoder<E, Error = anyhow::Error> + Decoder<Item = D, Error = anyhow::Error>,
+    ensures
+        //#C16 C01
+        final(vlog).relays == old(vlog).relays,
+        one_dial(old(vlog).dials, final(vlog).dials, Dial { tcp: Some((host@, port)), tls: Some((host@, port, *ssl_config)), ws: None, quic: None }, r is Ok),
+        r matches Ok(f) ==> f.codec() == codec,
+{
+    let outbound = rustls_stream(host, port, ssl_config, Tracked(vlog))?;
+    Ok(codec.framed(outbound))
+}
+
+//@@ octo-squirrel-client/src/client/template.rs:326-333  fn new_ws_outbound  sha=82dae80f08bff00b
+fn new_ws_outbound<C, E, D>(host: &str, port: u16, codec: C, ws_config: &WebSocketConfig, Tracked(vlog): Tracked<&mut TransportLog>) -> (r: Result<WebSocketFramed<TcpStream, C, E, D>>)
+where
+    C: Encoder<E, Error = anyhow::Error> + Decoder<Item = D, Error = anyhow::Error>,
+    ensures
+        //#C16 C01
+        final(vlog).relays == old(vlog).relays,
+        one_dial(old(vlog).dials, final(vlog).dials, Dial { tcp: Some((host@, port)), tls: None, ws: Some((host@, port, *ws_config)), quic: None }, r is Ok),
+        r matches Ok(f) ==> f.codec() == codec,
+{
+    let outbound = TcpStream::connect((host, port), Tracked(vlog))?;
+    let (outbound, _) = new_ws_builder(host, port, ws_config)?.connect_on(outbound, Tracked(vlog)).map_err(|e| verif_err())?;
+    Ok(WebSocketFramed::new(outbound, codec))
+}
+
+//@@ octo-squirrel-client/src/client/template.rs:335-348  fn new_wss_outbound  sha=1e8658c59e113840
+fn new_wss_outbound<C, E, D>(
+    host: &str,
+    port: u16,
+    codec: C,
+    ssl_config: &SslConfig,
+    ws_config: &WebSocketConfig,Tracked(vlog): Tracked<&mut TransportLog>
+) -> (r: Result<WebSocketFramed<TlsStream<TcpStream>, C, E, D>>)
+where
+    C: Encoder<E, Error = anyhow::Error> + Decoder<Item = D, Error = anyhow::Error>,
+    ensures
+        //#C16 C01
+        final(vlog).relays == old(vlog).relays,
+        one_dial(old(vlog).dials, final(vlog).dials, Dial { tcp: Some((host@, port)), tls: Some((host@, port, *ssl_config)), ws: Some((host@, port, *ws_config)), quic: None }, r is Ok),
+        r matches Ok(f) ==> f.codec() == codec,
+{
+    let outbound = rustls_stream(host, port, ssl_config, Tracked(vlog))?;
+    let (outbound, _) = new_ws_builder(host, port, ws_config)?.connect_on(outbound, Tracked(vlog)).map_err(|e| verif_err())?;
+    Ok(WebSocketFramed::new(outbound, codec))
 }
